@@ -56,6 +56,7 @@ fn main() {
             all.extend(capi::witnesses());
             all.extend(comp::witnesses());
             all.extend(fuzz::witnesses());
+            all.extend(format::witnesses());
             for (name, prop, f) in all {
                 if let Some(o) = &only {
                     if o != name && o != prop {
